@@ -225,7 +225,7 @@ fn sc_roundtrip(plan: &Plan, lib: &dyn Lib, rec: &mut Rec) {
     c.finish(rec);
 }
 
-fn describe(o: &Out) -> String {
+pub fn describe(o: &Out) -> String {
     match o {
         Out::Ok(v) if v.len() > 1 => format!("Some({}B)", v[1].len()),
         Out::Ok(_) => "None".into(),
